@@ -250,6 +250,8 @@ func init() {
 		[]string{"/a/x", "/a/y", "/b/x", "/b/y", "/c/x", "/c/y", "/d/x", "/d/y", "/e/x", "/e/y", "/bb"}, // 31: five non-leaf literal siblings, then a split of one that is not the last
 		[]string{"/p/{id}/au", "/p/{id}/{g:\\w+}", "/p/{id}/{n:digit}"},                           // 32: the literal tail of a split parameter node against later regexp / interceptor siblings
 		[]string{"/p/{id}/{n:digit}", "/p/{id}/{g:\\w+}", "/p/{id}/au"},                           // 33: reverse order
+		[]string{"/t/a", "/t/b", "/t/\u4e2d", "/t/c", "/t/d", "/t/{n}"},                            // 34: an indexed literal that starts with a non-ASCII byte, parameter sibling
+		[]string{"/t/d", "/t/\u00e9x", "/t/c", "/t/b", "/t/a"},                                    // 35: exactly five literals, one non-ASCII, no parameter
 	)
 }
 
